@@ -148,7 +148,7 @@ impl Prog {
     }
 
     pub fn is_big(&self) -> bool {
-        self.n as usize > self.input.len()
+        self.n as usize > self.input.len() || self.input.len() > 2000
     }
 
     /// Transformation ops (stages) in order, 1-based stage number = index + 1.
